@@ -338,7 +338,7 @@ static void solvePhase(vh::Rng &r, Scene &sc, vpsc::Dim dim, int rounds, long am
     {
         topology::TopologyConstraints t(dim, sc.nodes, sc.edges, nullptr, vs, cs);
         printState("construct", (int) dim, sc.nodes, sc.edges);
-        printConstraints(t, sc.edges, (int) dim);
+        printConstraints(t, sc.edges, (int) dim, &cs);
         for (int round = 0; round < rounds && budget > 0; ++round) {
             int mode = (int) r.range(0, 3);
             unsigned drag = r.range(0, n - 1);
@@ -486,7 +486,7 @@ static void witnessSolve(Scene &sc, vpsc::Dim dim, const std::vector<double> &de
     {
         topology::TopologyConstraints t(dim, sc.nodes, sc.edges, nullptr, vs, cs);
         printState("construct", (int) dim, sc.nodes, sc.edges);
-        printConstraints(t, sc.edges, (int) dim);
+        printConstraints(t, sc.edges, (int) dim, &cs);
         printf("D %d", (int) dim);
         for (unsigned i = 0; i < n; ++i) {
             vs[i]->desiredPosition = des[i]; vs[i]->weight = wts[i];
@@ -672,7 +672,7 @@ static void dragPass(Scene &sc, vpsc::Dim dim, const std::vector<double> &des, c
         topology::TopologyConstraints t(dim, sc.nodes, sc.edges, nullptr, vs, cs);
         // the constructor has run PruneDegenerate over every path: nothing moved, paths may have lost points
         printState("construct", (int) dim, sc.nodes, sc.edges);
-        printConstraints(t, sc.edges, (int) dim);
+        printConstraints(t, sc.edges, (int) dim, &cs);
         for (unsigned i = 0; i < n; ++i) { vs[i]->desiredPosition = des[i]; vs[i]->weight = wts[i]; }
         int loop = 100; bool again;
         do { again = t.solve(); printState("solve", (int) dim, sc.nodes, sc.edges); printConstraints(t, sc.edges, (int) dim); --budget; } while (again && --loop > 0 && budget > 0);
